@@ -1,4 +1,5 @@
-import TwistedProps.C08.Loop
+import TwistedProps.C08.Trace
+import TwistedProps.C08.Counter
 /-!
 C08 — reactor timed calls run once, on time, in time order.
 
@@ -13,24 +14,40 @@ history, and the per-operation theorems (`iteration`, `timeout_bound`, `getDelay
 flags `*_forever`) are stated for every state satisfying it — i.e. for the next operation after
 any history.  `history_timed_calls` packages them.
 
+**The property on the global trace** (`TwistedProps/C08/Trace.lean`): a reference timer `Ref` is run
+over the event trace alone (clock, creation count, scheduled time and status of every call — the
+Lean twin of the Python oracle); `okAt r e` is what the statement demands of event `e`, `check` demands
+it of every event.  `history_trace_ok`: the trace of EVERY history passes `check`.
+`runs_exactly_once` unpacks it in the statement's words.
+
 The statement's clauses and where they are:
-* runs exactly once iff not cancelled first → `IterOK.runs` (`RunOK.pending`, `.fresh`: entered only
-  if never called and not cancelled), `IterOK.nodup` (at most once per iteration), `IterOK.marked` +
-  `called_forever` (never again later), `cancelled_forever`, and `IterOK.complete` (every
-  pre-existing call still pending after an iteration is not yet due — so a call that is never
-  cancelled runs in the first iteration at or after its time).
-* never before its currently scheduled time → `RunOK.due`.
-* in the first iteration that starts at or after that time → `IterOK.complete`.
-* a call scheduled during an iteration does not run in that iteration → `RunOK.old`.
-* when a call runs no other pending call is scheduled earlier → `RunOK.order`, `RunOK.others`:
-  proved against every other pending call in the heap and every staged one not moved before the
-  clock.  The remaining case — a call created inside the running iteration and then moved before the
-  iteration's clock by `delay(negative)`/`reset(negative)` — is a real exception of the code
-  (`order_counterexample`), finding key `staged-call-moved-before-now`; no implementation can meet
-  this clause and the previous one together on such an input.  `order_full` gives the clause
-  without exception under the decidable hypothesis `noStagedPast`.
-* getDelayedCalls returns exactly the pending calls → `getDelayedCalls_exact`.
-* the sleep timeout never exceeds the time until the earliest pending call → `timeout_bound`.
+* runs exactly once iff not cancelled first, never before its currently scheduled time, in the first
+  iteration that starts at or after that time → `runs_exactly_once` (ONE theorem about the global
+  trace: (a) no id twice in the run log; (b) at every `run` event: inside an iteration, existed before
+  it began, no successful `cancel` before, not run before, scheduled time ≤ clock, ordering; (c) at
+  every iteration end: every call that existed when it began and whose time has come has run or was
+  cancelled).  Status characterisation `st_char_init`: called ⇔ in the run log, cancelled ⇔ a `cancel`
+  succeeded.  (Per-iteration form, kept: `IterOK`, `called_forever`, `cancelled_forever`.)
+* a call scheduled during an iteration does not run in that iteration → `runs_exactly_once` (b)
+  (`id < r.n0`), `RunOK.old`.
+* when a call runs no other pending call is scheduled earlier → `okAt` for `run` events / `RunOK.order`:
+  proved against every other pending call that existed before the iteration began and every newer one
+  not moved before the clock.  The remaining case — a call created inside the running iteration and
+  then moved before the iteration's clock by `delay(negative)`/`reset(negative)` — is a real exception
+  of the code (`order_counterexample`), finding key `staged-call-moved-before-now`; no implementation
+  can meet this clause and the previous one together on such an input.  `nonneg_history_order`: for
+  every history whose `reset()`/`delay()` arguments are non-negative (the statement's quantifier) the
+  clause holds WITHOUT exception at every `run` event of the trace (`gentle_history_order`: more
+  generally, whenever no `reset`/`delay` moves a call before the clock); `noStagedPastFor` holds there,
+  so `order_full'` applies.
+* getDelayedCalls returns exactly the pending calls → `okAt` for `delayed` events, `getDelayedCalls_exact`.
+* the sleep timeout never exceeds the time until the earliest pending call → `okAt` for `timeout`
+  events, `timeout_bound`.
+* `_cancellations` (state anchor; not in the statement): `cancellations_counter_exact` — the counter
+  equals the number of cancelled entries stored minus the number of cancelled calls that were still
+  staged at the most recent compaction; `cancellations_counter_le`; `counter_negative_witness` (the
+  intended invariant "= cancelled entries stored" fails: −1 with nothing cancelled stored; harmless —
+  the counter only delays the compaction heuristic).
 -/
 namespace TwistedProps.C08
 open Twisted.Reactor.Timers
@@ -258,6 +275,7 @@ theorem step_spec (s : Sys) (t : Top) (I : Inv s) (hs : s.stuck = false) :
     have A := timeout_bound s I
     exact ⟨A.1, by show (timeout s).1.stuck = false; rw [A.2.1]; exact hs, A.2.2.1.toFlags⟩
   | getDelayedCalls => exact ⟨I, hs, Flags.refl s⟩
+  | counter => exact ⟨I, hs, Flags.refl s⟩
 
 theorem exec_spec : ∀ (ops : List Top) (s : Sys), Inv s → s.stuck = false →
     Inv (exec s ops).1 ∧ (exec s ops).1.stuck = false ∧ Flags s (exec s ops).1
@@ -272,6 +290,424 @@ theorem reachable (base : Int) (scripts : List (List Op)) (ops : List Top) :
     Inv (exec (Sys.init base scripts) ops).1 ∧ (exec (Sys.init base scripts) ops).1.stuck = false :=
   let A := exec_spec ops (Sys.init base scripts) (init_inv base scripts) rfl
   ⟨A.1, A.2.1⟩
+
+/-! ### the property on the GLOBAL TRACE of any history
+
+`history_trace_ok`: the trace of every history passes `check` (the reference timer of
+`TwistedProps/C08/Trace.lean`, the Lean twin of the Python oracle).  `runs_exactly_once` unpacks
+it into the statement's words. -/
+
+/-- a block of top-level events: every event passes, the reference timer follows the model, and
+    no iteration is left open -/
+structure TopOK (r : Ref) (evs : List Ev) (s' : Sys) : Prop where
+  chk : always okL r evs
+  sim : Sim (refRun r evs) s'
+  out : (refRun r evs).inIter = false
+
+theorem runUntilCurrent_eq (s : Sys) :
+    runUntilCurrent s = (compact (runLoop (loopFuel (insertNew s)) (insertNew s)).1,
+      (runLoop (loopFuel (insertNew s)) (insertNew s)).2) := rfl
+
+theorem timeout_fst (s : Sys) : (timeout s).1 = insertNew s := by
+  cases h : (insertNew s).heap <;> simp only [timeout, h]
+
+theorem iterate_top (r : Ref) (s : Sys) (I : Inv s) (hs : s.stuck = false) (S : Sim r s)
+    (hin : r.inIter = false) :
+    TopOK r (Ev.iterBegin :: (runUntilCurrent s).2 ++ [Ev.iterEnd]) (runUntilCurrent s).1 := by
+  have IT := iteration s I hs
+  have N := insertNew_spec s I
+  have hpre : Pre s.calls.length (insertNew s) :=
+    ⟨N.1, fun j hj => by rw [← N.2.1.len]; exact N.1.bound j (List.mem_append_left _ hj),
+     fun j hj => by rw [N.2.2] at hj; simp at hj, by rw [N.2.1.len]; exact Nat.le_refl _⟩
+  have S1 : Sim (refStep r Ev.iterBegin) (insertNew s) :=
+    View.sim (⟨S.now, S.n, S.T, S.st⟩ : Sim (refStep r Ev.iterBegin) s) N.2.1
+  have L := runLoop_blk s.calls.length (loopFuel (insertNew s)) (refStep r Ev.iterBegin) (insertNew s)
+    hpre S1 S.n rfl
+  have PL := (runLoop_spec s.calls.length (loopFuel (insertNew s)) (insertNew s) hpre).1
+  have C := compact_spec _ PL.inv
+  have hcomplete : ∀ id, id < s.calls.length →
+      (compact (runLoop (loopFuel (insertNew s)) (insertNew s)).1).pending id = true →
+      (compact (runLoop (loopFuel (insertNew s)) (insertNew s)).1).now <
+        (compact (runLoop (loopFuel (insertNew s)) (insertNew s)).1).sched id := IT.complete
+  have hlen : s.calls.length ≤ (compact (runLoop (loopFuel (insertNew s)) (insertNew s)).1).calls.length :=
+    IT.mono.len
+  clear IT
+  show TopOK r (Ev.iterBegin :: (runLoop (loopFuel (insertNew s)) (insertNew s)).2 ++ [Ev.iterEnd])
+    (compact (runLoop (loopFuel (insertNew s)) (insertNew s)).1)
+  generalize hsL : (runLoop (loopFuel (insertNew s)) (insertNew s)).1 = sL at *
+  generalize hev : (runLoop (loopFuel (insertNew s)) (insertNew s)).2 = evL at *
+  have S2 : Sim (refRun (refStep r Ev.iterBegin) evL) (compact sL) :=
+    L.sim.congr C.2.1 C.2.2.2.2.1
+      (fun j => by show ((compact sL).call j).time + ((compact sL).call j).delayed = _; rw [C.2.2.2.1]; rfl)
+      (fun j => by rw [C.2.2.2.1])
+  have hn0 : (refRun (refStep r Ev.iterBegin) evL).n0 = s.calls.length := L.n0.trans S.n
+  have hend : okAt (refRun (refStep r Ev.iterBegin) evL) Ev.iterEnd := by
+    refine ⟨L.inIter, ?_⟩
+    intro j hj hp
+    rw [hn0] at hj
+    have hjn : j < (refRun (refStep r Ev.iterBegin) evL).n := by
+      rw [S2.n]; exact Nat.lt_of_lt_of_le hj hlen
+    have hp' : (compact sL).pending j = true := by
+      have := (stOf_pending ((compact sL).call j)).mp (by rw [← S2.st j hjn]; exact hp)
+      exact this
+    have := hcomplete j hj hp'
+    rw [S2.now, S2.T j hjn]; exact this
+  refine ⟨⟨⟨hin, trivial⟩, (always_append okL evL [Ev.iterEnd] _).mpr ⟨L.chk, ⟨hend, trivial⟩, trivial⟩⟩, ?_, ?_⟩
+  · show Sim (refRun (refStep r Ev.iterBegin) (evL ++ [Ev.iterEnd])) (compact sL)
+    rw [refRun_append]
+    exact ⟨S2.now, S2.n, S2.T, S2.st⟩
+  · show (refRun (refStep r Ev.iterBegin) (evL ++ [Ev.iterEnd])).inIter = false
+    rw [refRun_append]; rfl
+
+theorem step_top (r : Ref) (s : Sys) (t : Top) (I : Inv s) (hs : s.stuck = false) (S : Sim r s)
+    (hin : r.inIter = false) : TopOK r (step s t).2 (step s t).1 := by
+  cases t with
+  | user o =>
+    have B := applyOp_blk r s o S
+    exact ⟨B.chk, B.sim, B.inIter.trans hin⟩
+  | advance dt =>
+    refine ⟨⟨⟨hin, trivial⟩, trivial⟩, ?_, hin⟩
+    exact ⟨by show r.now + dt = s.now + dt; rw [S.now], S.n, S.T, S.st⟩
+  | iterate => exact iterate_top r s I hs S hin
+  | timeout =>
+    have TB := timeout_bound s I
+    have N := insertNew_spec s I
+    have hpend : ∀ j, j < r.n → (r.st j = St.pending ↔ s.pending j = true) := by
+      intro j hj; rw [S.st j hj, stOf_pending]; rfl
+    refine ⟨⟨⟨?_, trivial⟩, trivial⟩, ?_, hin⟩
+    · show okAt r (Ev.timeout (timeout s).2)
+      cases hv : (timeout s).2 with
+      | none =>
+        intro j hj hp
+        have := TB.2.2.2.1 hv j
+        rw [(hpend j hj).mp hp] at this; cases this
+      | some v =>
+        have := TB.2.2.2.2 v hv
+        refine ⟨this.1, this.2.1, ?_⟩
+        intro j hj hp
+        rw [S.T j hj, S.now]
+        exact this.2.2 j ((hpend j hj).mp hp)
+    · show Sim r (timeout s).1
+      rw [timeout_fst]; exact View.sim S N.2.1
+  | getDelayedCalls =>
+    have G := getDelayedCalls_exact s I
+    refine ⟨⟨⟨⟨?_, G.2⟩, trivial⟩, trivial⟩, S, hin⟩
+    intro id t
+    rw [G.1 id t]
+    constructor
+    · rintro ⟨hp, ht⟩
+      have hid : id < r.n := by rw [S.n]; exact pending_lt s I id hp
+      exact ⟨hid, by rw [S.st id hid, stOf_pending]; exact hp, by rw [S.T id hid]; exact ht⟩
+    · rintro ⟨hid, hp, ht⟩
+      exact ⟨by rw [S.st id hid, stOf_pending] at hp; exact hp, by rw [← S.T id hid]; exact ht⟩
+  | counter => exact ⟨⟨⟨trivial, trivial⟩, trivial⟩, S, hin⟩
+
+theorem exec_top : ∀ (ops : List Top) (r : Ref) (s : Sys), Inv s → s.stuck = false → Sim r s →
+    r.inIter = false → TopOK r (exec s ops).2 (exec s ops).1
+  | [], r, s, _, _, S, hin => ⟨trivial, S, hin⟩
+  | t :: ts, r, s, I, hs, S, hin => by
+    have A := step_top r s t I hs S hin
+    have Sp := step_spec s t I hs
+    have B := exec_top ts (refRun r (step s t).2) (step s t).1 Sp.1 Sp.2.1 A.sim A.out
+    simp only [exec]
+    refine ⟨(always_append okL _ _ r).mpr ⟨A.chk, B.chk⟩, ?_, ?_⟩
+    · rw [refRun_append]; exact B.sim
+    · rw [refRun_append]; exact B.out
+
+theorem init_sim (base : Int) (scripts : List (List Op)) : Sim (Ref.init base) (Sys.init base scripts) :=
+  ⟨rfl, rfl, fun j hj => by simp [Ref.init] at hj, fun j hj => by simp [Ref.init] at hj⟩
+
+/-- the trace of ANY history passes the reference timer's check at every event, and every `run`
+    event's snapshot is linked to the reference state (`linkAt`) -/
+theorem history_trace_linked (base : Int) (scripts : List (List Op)) (ops : List Top) :
+    always okL (Ref.init base) (exec (Sys.init base scripts) ops).2 :=
+  (exec_top ops (Ref.init base) (Sys.init base scripts) (init_inv base scripts) rfl
+    (init_sim base scripts) rfl).chk
+
+/-- **The property on the global trace.**  For ANY history (any script table, any initial clock),
+    the whole event trace passes `check`: see `okAt` for what is demanded of each event. -/
+theorem history_trace_ok (base : Int) (scripts : List (List Op)) (ops : List Top) :
+    check (Ref.init base) (exec (Sys.init base scripts) ops).2 :=
+  ((always_and okAt linkAt _ _).mp (history_trace_linked base scripts ops)).1
+
+/-- **Runs exactly once iff not cancelled first, never early, in the first iteration at or after
+    its time** — one statement about the global trace `tr` of any history.  `refRun (Ref.init base)
+    pre` is the reference timer after the events `pre`: `.now` the clock, `.T id` the currently
+    scheduled time of call `id` (as set by the `callLater`/`reset`/`delay` events in `pre`), `.n0`
+    the number of calls that existed when the running iteration began.
+    (a) no call id occurs twice in the run log;
+    (b) whenever a call is entered: an iteration is running and the call existed before it began
+        (calls scheduled during an iteration do not run in it); no `cancel` of it succeeded before
+        and it has not run before; its scheduled time has come, and the clock it sees is the
+        reference clock; and no other pending call that existed before the iteration began, or that
+        is not scheduled before the clock, is scheduled earlier (for the remaining calls see
+        `order_counterexample` and `nonneg_history_order`);
+    (c) whenever an iteration ends: every call that existed when it began and whose scheduled time
+        is at or before the clock has run (in this iteration or before) or was cancelled.
+    By (b) a call never runs before its time, so with (c) a call that is never cancelled runs in
+    the FIRST iteration that starts at or after its scheduled time, and by (a) only there. -/
+theorem runs_exactly_once (base : Int) (scripts : List (List Op)) (ops : List Top) :
+    let tr := (exec (Sys.init base scripts) ops).2
+    (runIds tr).Nodup ∧
+    (∀ pre id snap post, tr = pre ++ Ev.run id snap :: post →
+      let r := refRun (Ref.init base) pre
+      r.inIter = true ∧ id < r.n0 ∧ r.n0 ≤ r.n ∧
+      ¬ wasCancelled id pre ∧ id ∉ runIds pre ∧
+      r.T id ≤ r.now ∧ snap.now = r.now ∧
+      (∀ j, j < r.n → j ≠ id → r.st j = St.pending → (j < r.n0 ∨ r.now ≤ r.T j) → r.T id ≤ r.T j)) ∧
+    (∀ pre post, tr = pre ++ Ev.iterEnd :: post →
+      let r := refRun (Ref.init base) pre
+      ∀ id, id < r.n0 → r.T id ≤ r.now → id ∈ runIds pre ∨ wasCancelled id pre) := by
+  intro tr
+  have H : check (Ref.init base) tr := history_trace_ok base scripts ops
+  refine ⟨check_runs_nodup tr _ H, ?_, ?_⟩
+  · intro pre id snap post he r
+    rw [he] at H
+    have hpre : check (Ref.init base) pre := ((always_append okAt _ _ _).mp H).1
+    have ok : okAt r (Ev.run id snap) := always_split okAt _ pre _ post H
+    simp only [okAt] at ok
+    have hc := st_char_init base pre hpre id (by show id < r.n; omega)
+    have hp := hc.2.2.mp ok.2.2.2.2.1
+    exact ⟨ok.1, ok.2.2.1, ok.2.2.2.1, hp.2, hp.1, ok.2.2.2.2.2.1, ok.2.1, ok.2.2.2.2.2.2⟩
+  · intro pre post he r id hid hT
+    rw [he] at H
+    have hpre : check (Ref.init base) pre := ((always_append okAt _ _ _).mp H).1
+    have ok : okAt r Ev.iterEnd := always_split okAt _ pre _ post H
+    simp only [okAt] at ok
+    have hn : r.n0 ≤ r.n := n0_le_n pre (Ref.init base) (Nat.le_refl _)
+    have hc := st_char_init base pre hpre id (by show id < r.n; omega)
+    cases hst : r.st id with
+    | pending => have := ok.2 id hid hst; omega
+    | cancelled => exact Or.inr (hc.2.1.mp hst)
+    | called => exact Or.inl (hc.1.mp hst)
+
+/-! ### the ordering clause for histories that never move a call before the clock
+(in particular: non-negative `delay()`/`reset()` arguments — the histories of the property's text) -/
+
+/-- `noStagedPast` for the snapshot of the `run` event of call `id`: no OTHER pending call outside
+    the heap (i.e. staged: created during the running iteration) is scheduled before the clock.
+    (`noStagedPast snap` also constrains the entered call itself, which is pending and already popped
+    in `snap`; it implies this one — `noStagedPast_imp`.) -/
+def noStagedPastFor (id : Nat) (snap : Sys) : Prop :=
+  ∀ j, j ≠ id → j ∉ snap.heap → snap.pending j = true → snap.now ≤ snap.sched j
+
+theorem noStagedPast_imp (id : Nat) (snap : Sys) (h : noStagedPast snap) : noStagedPastFor id snap :=
+  fun j _ hm hp => h j hm hp
+
+/-- `order_full` under the weaker (satisfiable also when the entered call is overdue) hypothesis -/
+theorem order_full' (s : Sys) (n0 id : Nat) (snap : Sys) (r : RunOK s n0 id snap)
+    (hst : noStagedPastFor id snap) :
+    ∀ j, j ≠ id → snap.pending j = true → snap.sched id ≤ snap.sched j := by
+  intro j hj hp
+  by_cases hm : j ∈ snap.heap
+  · exact r.order j hj hp (Or.inl hm)
+  · exact r.order j hj hp (Or.inr (hst j hj hm hp))
+
+/-- **Dynamic form.**  If no `reset`/`delay` event of the history moves a call before the clock
+    (`gentleAt`: `reset` with a non-negative argument; `delay` with a non-negative argument or
+    landing at or after the clock), then at every `run` event of the global trace no staged call is
+    scheduled before the clock (`noStagedPastFor`), so the ordering clause holds without exception:
+    no other pending call is scheduled earlier than the call being entered. -/
+theorem gentle_history_order (base : Int) (scripts : List (List Op)) (ops : List Top)
+    (hg : always gentleAt (Ref.init base) (exec (Sys.init base scripts) ops).2) :
+    always orderAt (Ref.init base) (exec (Sys.init base scripts) ops).2 ∧
+    ∀ id snap, Ev.run id snap ∈ (exec (Sys.init base scripts) ops).2 →
+      noStagedPastFor id snap ∧
+      ∀ j, j ≠ id → snap.pending j = true → snap.sched id ≤ snap.sched j := by
+  have HL := (always_and okAt linkAt _ _).mp (history_trace_linked base scripts ops)
+  have F0 : Fresh (Ref.init base) := by intro h; simp [Ref.init] at h
+  have HF := always_fresh _ _ F0 HL.1 hg
+  refine ⟨always_order _ _ F0 HL.1 hg, ?_⟩
+  intro id snap hmem
+  obtain ⟨pre, post, he⟩ := List.append_of_mem hmem
+  rw [he] at HL HF
+  have ok : okAt (refRun (Ref.init base) pre) (Ev.run id snap) := always_split okAt _ pre _ post HL.1
+  have lk : linkAt (refRun (Ref.init base) pre) (Ev.run id snap) := always_split linkAt _ pre _ post HL.2
+  have fr : Fresh (refRun (Ref.init base) pre) :=
+    always_split (fun r _ => Fresh r) _ pre (Ev.run id snap) post HF
+  have ord := order_of_fresh _ _ ok fr
+  generalize refRun (Ref.init base) pre = r at ok lk fr ord
+  simp only [okAt] at ok
+  obtain ⟨S, hlt, hoth⟩ := lk
+  have hidr : id < r.n := by omega
+  constructor
+  · intro j hj hnh hp
+    have hjn := hlt j hp
+    rcases hoth j hj hp with h | h
+    · exact absurd h hnh
+    · have := fr ok.1 j h hjn
+      rw [S.now, S.T j hjn] at this; exact this
+  · intro j hj hp
+    have hjn := hlt j hp
+    have hst : r.st j = St.pending := by rw [S.st j hjn, stOf_pending]; exact hp
+    have := ord j hjn hj hst
+    rw [S.T id hidr, S.T j hjn] at this; exact this
+
+/-- a `reset`/`delay` with a non-negative argument (what the property's text quantifies over) -/
+def nonnegOp : Op → Prop
+  | .reset _ secs => 0 ≤ secs
+  | .delay _ secs => 0 ≤ secs
+  | _ => True
+
+/-- every `reset`/`delay` written in the history — at top level or in any script — has a
+    non-negative argument (a static condition on the history) -/
+def NonNegHistory (scripts : List (List Op)) (ops : List Top) : Prop :=
+  (∀ sc ∈ scripts, ∀ o ∈ sc, nonnegOp o) ∧ (∀ o, Top.user o ∈ ops → nonnegOp o)
+
+def nonnegEv : Ev → Prop
+  | .op o _ _ => nonnegOp o
+  | _ => True
+
+theorem runScript_nonneg : ∀ (os : List Op) (s : Sys), (∀ o ∈ os, nonnegOp o) →
+    ∀ e ∈ (runScript s os).2, nonnegEv e
+  | [], _, _, e, he => by simp [runScript] at he
+  | o :: os, s, h, e, he => by
+    simp only [runScript] at he
+    rcases List.mem_cons.mp he with h1 | h1
+    · subst h1; exact h o (by simp)
+    · exact runScript_nonneg os _ (fun o' ho' => h o' (List.mem_cons_of_mem _ ho')) e h1
+
+theorem getD_nonneg (scripts : List (List Op)) (k : Nat) (h : ∀ sc ∈ scripts, ∀ o ∈ sc, nonnegOp o) :
+    ∀ o ∈ scripts.getD k [], nonnegOp o := by
+  intro o ho
+  by_cases hk : k < scripts.length
+  · have : scripts.getD k [] = scripts[k] := by simp [List.getD_eq_getElem?_getD, hk]
+    rw [this] at ho
+    exact h _ (List.getElem_mem hk) o ho
+  · have : scripts.getD k [] = [] := by
+      simp [List.getD_eq_getElem?_getD, List.getElem?_eq_none (Nat.le_of_not_lt hk)]
+    rw [this] at ho; simp at ho
+
+theorem turn_nonneg (s s' : Sys) (evs : List Ev) (hsc : ∀ sc ∈ s.scripts, ∀ o ∈ sc, nonnegOp o)
+    (h : turn s = some (s', evs)) : ∀ e ∈ evs, nonnegEv e := by
+  obtain ⟨root, tl, id, heap', hh, hdue, hpop⟩ := turn_cases s s' evs h
+  rw [turn_eq s root tl id heap' hh hdue hpop] at h
+  split at h
+  · simp only [Option.some.injEq, Prod.mk.injEq] at h
+    obtain ⟨_, rfl⟩ := h
+    intro e he; simp at he
+  · split at h
+    · simp only [Option.some.injEq, Prod.mk.injEq] at h
+      obtain ⟨_, rfl⟩ := h
+      intro e he; simp at he
+    · simp only [Option.some.injEq, Prod.mk.injEq] at h
+      obtain ⟨_, rfl⟩ := h
+      intro e he
+      rcases List.mem_cons.mp he with h1 | h1
+      · subst h1; trivial
+      · exact runScript_nonneg _ _ (getD_nonneg s.scripts _ hsc) e h1
+
+theorem runLoop_nonneg (n0 : Nat) : ∀ (fuel : Nat) (s : Sys), Pre n0 s →
+    (∀ sc ∈ s.scripts, ∀ o ∈ sc, nonnegOp o) → ∀ e ∈ (runLoop fuel s).2, nonnegEv e
+  | 0, s, _, _, e, he => by
+    rw [runLoop_zero] at he
+    split at he <;> simp at he
+  | fuel + 1, s, R, hsc, e, he => by
+    rw [runLoop_succ] at he
+    split at he
+    · simp at he
+    · rename_i s' evs ht
+      have T := turn_spec n0 s s' evs R ht
+      rcases List.mem_append.mp he with h1 | h1
+      · exact turn_nonneg s s' evs hsc ht e h1
+      · exact runLoop_nonneg n0 fuel s' T.pre (by rw [T.mono.scripts]; exact hsc) e h1
+
+theorem step_nonneg (s : Sys) (t : Top) (I : Inv s) (hs : s.stuck = false)
+    (hsc : ∀ sc ∈ s.scripts, ∀ o ∈ sc, nonnegOp o) (ht : ∀ o, t = Top.user o → nonnegOp o) :
+    (∀ e ∈ (step s t).2, nonnegEv e) ∧ (step s t).1.scripts = s.scripts := by
+  cases t with
+  | user o =>
+    refine ⟨?_, (applyOp_spec s o I).2.scripts⟩
+    intro e he
+    simp only [step, List.mem_singleton] at he
+    subst he; exact ht o rfl
+  | advance dt => exact ⟨by intro e he; simp only [step, List.mem_singleton] at he; subst he; trivial, rfl⟩
+  | iterate =>
+    refine ⟨?_, (iteration s I hs).mono.scripts⟩
+    have N := insertNew_spec s I
+    have hpre : Pre s.calls.length (insertNew s) :=
+      ⟨N.1, fun j hj => by rw [← N.2.1.len]; exact N.1.bound j (List.mem_append_left _ hj),
+       fun j hj => by rw [N.2.2] at hj; simp at hj, by rw [N.2.1.len]; exact Nat.le_refl _⟩
+    intro e he
+    simp only [step] at he
+    rcases List.mem_cons.mp he with h1 | h1
+    · subst h1; trivial
+    · rcases List.mem_append.mp h1 with h2 | h2
+      · exact runLoop_nonneg s.calls.length _ (insertNew s) hpre (by rw [N.2.1.scripts]; exact hsc) e h2
+      · simp only [List.mem_singleton] at h2; subst h2; trivial
+  | timeout =>
+    exact ⟨by intro e he; simp only [step, List.mem_singleton] at he; subst he; trivial,
+      (timeout_bound s I).2.2.1.scripts⟩
+  | getDelayedCalls =>
+    exact ⟨by intro e he; simp only [step, List.mem_singleton] at he; subst he; trivial, rfl⟩
+  | counter =>
+    exact ⟨by intro e he; simp only [step, List.mem_singleton] at he; subst he; trivial, rfl⟩
+
+theorem exec_nonneg : ∀ (ops : List Top) (s : Sys), Inv s → s.stuck = false →
+    (∀ sc ∈ s.scripts, ∀ o ∈ sc, nonnegOp o) → (∀ o, Top.user o ∈ ops → nonnegOp o) →
+    ∀ e ∈ (exec s ops).2, nonnegEv e
+  | [], _, _, _, _, _, e, he => by simp [exec] at he
+  | t :: ts, s, I, hs, hsc, hops, e, he => by
+    simp only [exec] at he
+    have A := step_nonneg s t I hs hsc (fun o ho => hops o (by rw [ho]; exact List.mem_cons_self))
+    have Sp := step_spec s t I hs
+    rcases List.mem_append.mp he with h1 | h1
+    · exact A.1 e h1
+    · exact exec_nonneg ts (step s t).1 Sp.1 Sp.2.1 (by rw [A.2]; exact hsc)
+        (fun o ho => hops o (List.mem_cons_of_mem _ ho)) e h1
+
+theorem always_gentle_of_nonneg : ∀ (tr : List Ev) (r : Ref), (∀ e ∈ tr, nonnegEv e) → always gentleAt r tr
+  | [], _, _ => trivial
+  | e :: es, r, h => by
+    refine ⟨?_, always_gentle_of_nonneg es _ (fun e' he' => h e' (List.mem_cons_of_mem _ he'))⟩
+    have := h e List.mem_cons_self
+    cases e with
+    | op o t res =>
+      cases o with
+      | reset ref secs => exact this
+      | delay ref secs => exact Or.inl this
+      | _ => trivial
+    | _ => trivial
+
+/-- **Static corollary (non-negative delays).**  For every history whose `reset()`/`delay()`
+    arguments are all non-negative — at top level and in every script — every `run` event of the
+    global trace satisfies `noStagedPastFor` (no call created during the running iteration is
+    scheduled before its clock), hence the ordering clause holds WITHOUT exception: when a call
+    runs, no other pending call is scheduled earlier.  (`callLater` refuses negative delays.) -/
+theorem nonneg_history_order (base : Int) (scripts : List (List Op)) (ops : List Top)
+    (h : NonNegHistory scripts ops) :
+    always orderAt (Ref.init base) (exec (Sys.init base scripts) ops).2 ∧
+    ∀ id snap, Ev.run id snap ∈ (exec (Sys.init base scripts) ops).2 →
+      noStagedPastFor id snap ∧
+      ∀ j, j ≠ id → snap.pending j = true → snap.sched id ≤ snap.sched j :=
+  gentle_history_order base scripts ops
+    (always_gentle_of_nonneg _ _
+      (exec_nonneg ops (Sys.init base scripts) (init_inv base scripts) rfl h.1 h.2))
+
+/-! ### the lazy-deletion counter `_cancellations` -/
+
+/-- **`_cancellations`, exactly.**  After ANY history: `_cancellations` = (number of cancelled
+    entries still stored in `_pendingTimedCalls` and `_newTimedCalls`) − debt, where the debt is the
+    number of cancelled calls that were still in the staging list at the most recent compaction
+    (`debtAfter`; 0 before the first compaction, never negative).  The intended invariant
+    "`_cancellations` = cancelled entries stored" (debt = 0) does NOT hold: the compaction zeroes the
+    counter but filters the heap only, so a call created and cancelled inside the compacting
+    iteration is later subtracted a second time — `counter_negative_witness` reaches −1 with no
+    cancelled entry stored (confirmed on the real `ReactorBase`).  The counter only drives the
+    compaction heuristic: the next compaction fires `debt` cancellations late. -/
+theorem cancellations_counter_exact (base : Int) (scripts : List (List Op)) (ops : List Top) :
+    let s := (exec (Sys.init base scripts) ops).1
+    s.canc = cancelledStored s - debtAfter (Sys.init base scripts) 0 ops ∧
+    0 ≤ debtAfter (Sys.init base scripts) 0 ops :=
+  cancellations_counter_exact_of
+    (fun s t I hs => ⟨(step_spec s t I hs).1, (step_spec s t I hs).2.1⟩) base scripts (init_inv base scripts) ops
+
+/-- the counter never over-counts -/
+theorem cancellations_counter_le (base : Int) (scripts : List (List Op)) (ops : List Top) :
+    let s := (exec (Sys.init base scripts) ops).1
+    s.canc ≤ cancelledStored s :=
+  cancellations_counter_le_of
+    (fun s t I hs => ⟨(step_spec s t I hs).1, (step_spec s t I hs).2.1⟩) base scripts (init_inv base scripts) ops
 
 /-- once run, a call stays marked called through any continuation of the history — together with
     `IterOK.fresh` it is never entered again -/
@@ -360,5 +796,55 @@ example : (getDelayedCalls (exec (Sys.init 0 [[]])
 
 example : (timeout (exec (Sys.init 5 [[]]) [Top.user (Op.callLater 16 0), Top.user (Op.delay 0 (-4))]).1).2
       = some 12 := by decide
+
+/-- non-vacuity of `check`: it rejects a call entered outside any iteration … -/
+example : ¬ check (Ref.init 0) [Ev.run 0 (Sys.init 0 [])] := by
+  intro h
+  have := h.1
+  simp [okAt, Ref.init] at this
+
+/-- … a call entered twice … -/
+example : ¬ check (Ref.init 0)
+    [Ev.op (Op.callLater 0 0) 0 (Res.created 0), Ev.iterBegin, Ev.run 0 (Sys.init 0 []), Ev.run 0 (Sys.init 0 [])] := by
+  intro h
+  have := h.2.2.2.1
+  simp [okAt, refStep, refOp, Ref.init, fset] at this
+
+/-- … a call entered before its time … -/
+example : ¬ check (Ref.init 0)
+    [Ev.op (Op.callLater 5 0) 0 (Res.created 0), Ev.iterBegin, Ev.run 0 (Sys.init 0 [])] := by
+  intro h
+  have := h.2.2.1
+  simp [okAt, refStep, refOp, Ref.init, fset] at this
+
+/-- … and an iteration that ends leaving a due call pending -/
+example : ¬ check (Ref.init 0)
+    [Ev.op (Op.callLater 5 0) 0 (Res.created 0), Ev.advance 5, Ev.iterBegin, Ev.iterEnd] := by
+  intro h
+  have := h.2.2.2.1.2 0
+  simp [refStep, refOp, Ref.init, fset] at this
+
+/-- non-vacuity of `nonneg_history_order`: the history of the example above (reset to now from
+    inside a running call, a cancellation, a positive `delay`) is a non-negative history -/
+example : NonNegHistory [[Op.reset 2 0], []]
+      [Top.user (Op.callLater 16 0), Top.user (Op.callLater 24 1), Top.user (Op.callLater 80 1),
+       Top.user (Op.callLater 32 1), Top.user (Op.cancel 1), Top.user (Op.delay 3 16),
+       Top.advance 16, Top.iterate, Top.advance 16, Top.iterate, Top.advance 16, Top.iterate] := by
+  constructor
+  · intro sc hsc o ho
+    simp at hsc
+    rcases hsc with rfl | rfl
+    · simp at ho; subst ho; simp [nonnegOp]
+    · simp at ho
+  · intro o ho
+    simp at ho
+    rcases ho with rfl | rfl | rfl | rfl | rfl | rfl <;> simp [nonnegOp]
+
+/-- the hypothesis of `nonneg_history_order` cannot be dropped: the witness history moves a staged
+    call before the clock (`delay 2 (-24)` in a script) -/
+example : ¬ NonNegHistory witnessScripts witnessOps := by
+  intro h
+  have := h.1 [Op.callLater 0 9, Op.delay 2 (-24)] (by simp [witnessScripts]) (Op.delay 2 (-24)) (by simp)
+  simp [nonnegOp] at this
 
 end TwistedProps.C08
